@@ -353,8 +353,13 @@ func (r *CPUSuppress) adjustByCPUSet(cpusetQuantity *resource.Quantity, nodeCPUI
 			klog.Errorf("failed to parse cpuset info of pod %s, err: %v", podMeta.Pod.Name, err)
 			continue
 		}
+		qosClass := apiext.GetPodQoSClassRaw(podMeta.Pod)
 		for _, cpuID := range set.ToSliceNoSort() {
-			cpuIdToPool[int32(cpuID)] = apiext.GetPodQoSClassRaw(podMeta.Pod)
+			// a cpu owned by an LSE pod stays exclusive whatever other (e.g. terminated) pods still list it
+			if cpuIdToPool[int32(cpuID)] == apiext.QoSLSE {
+				continue
+			}
+			cpuIdToPool[int32(cpuID)] = qosClass
 		}
 	}
 
